@@ -2336,9 +2336,20 @@ class WBEMConnection:  # pylint: disable=too-many-instance-attributes
         # Convert optional RETURNVALUE into a Python object
         returnvalue = None
 
-        if tup_tree and tup_tree[0][0] == 'RETURNVALUE':
+        if tup_tree and _is_element(tup_tree[0], 'RETURNVALUE'):
 
-            returnvalue = cimvalue(tup_tree[0][2], tup_tree[0][1]['PARAMTYPE'])
+            # PARAMTYPE is optional (it was added in DSP0201 2.2)
+            paramtype = tup_tree[0][1].get('PARAMTYPE', None)
+            try:
+                returnvalue = cimvalue(tup_tree[0][2], paramtype)
+            except (TypeError, ValueError) as exc:
+                new_exc = CIMXMLParseError(
+                    _format("Invalid return value for type {0!A} in "
+                            "RETURNVALUE child element of METHODRESPONSE: "
+                            "{1}", paramtype, exc),
+                    conn_id=self.conn_id)
+                new_exc.__cause__ = None
+                raise new_exc
             tup_tree = tup_tree[1:]
 
         # Convert zero or more PARAMVALUE elements into dictionary
@@ -2346,10 +2357,27 @@ class WBEMConnection:  # pylint: disable=too-many-instance-attributes
         output_params = NocaseDict()
 
         for p in tup_tree:
+            if isinstance(p[1], dict):
+                # An ERROR or RETURNVALUE element (parsed into a tuple
+                # (name, attributes, children)) at an invalid position
+                raise CIMXMLParseError(
+                    _format("Unexpected {0} child element of METHODRESPONSE "
+                            "(allowed only as the first child element)",
+                            p[0]),
+                    conn_id=self.conn_id)
             if p[1] == 'reference':
                 output_params[p[0]] = p[2]
             else:
-                output_params[p[0]] = cimvalue(p[2], p[1])
+                try:
+                    output_params[p[0]] = cimvalue(p[2], p[1])
+                except (TypeError, ValueError) as exc:
+                    new_exc = CIMXMLParseError(
+                        _format("Invalid value for type {0!A} in PARAMVALUE "
+                                "child element {1!A} of METHODRESPONSE: {2}",
+                                p[1], p[0], exc),
+                        conn_id=self.conn_id)
+                    new_exc.__cause__ = None
+                    raise new_exc
 
         return (returnvalue, output_params)
 
